@@ -36,17 +36,11 @@ Fixpoint list_match {A} (f : A -> A -> bool) (a b : list A) : bool :=
 
 Definition code_of (d : mdiag) : string := fst (fst (fst d)).
 
-(** known trivia-sensitive lints (KNOWN_FINDINGS.txt: V1/V3 deprecated, V2 type_check_inside_call) *)
+(** every lint counts: the classes once excused here (V1-V3: deprecated, type_check_inside_call) are repaired *)
 Definition check_case13 (c : case13) : N * N :=
   match c with
   | CTrivia ins orig twin =>
-      let ok := list_match (mdiag_match ins) orig twin in
-      let without := fun code l => List.filter (fun d : mdiag => negb (str_eqb (code_of d) code)) l in
-      let only := fun code => list_match (mdiag_match ins) (without code orig) (without code twin) in
-      if ok then (0, 0)
-      else if only "deprecated" then (0, 1)
-      else if only "type_check_inside_call" then (0, 2)
-      else (4, 0)
+      if list_match (mdiag_match ins) orig twin then (0, 0) else (4, 0)
   end.
 
 Definition run := Common.run check_case13.
